@@ -173,7 +173,8 @@ type reactPlan struct {
 	direct   map[string]struct{}
 	strict   bool
 	failing  bool
-	modifier bool // a MessageModifier that filters its argument in place
+	modifier bool   // a MessageModifier that filters its argument in place
+	suffix   string // what the tools append to their answers for the run the expectation is made for
 }
 
 func drawReact(t *kernel.Tape) *reactPlan {
@@ -219,6 +220,16 @@ func drawReact(t *kernel.Tape) *reactPlan {
 			if sp.Name == c.Name {
 				sp.Fail[c.Args] = 1 + t.Plan(2)
 				p.failing = true
+			}
+		}
+	}
+	// some calls are answered with the empty string
+	for _, tn := range p.script {
+		for _, c := range tn.Calls {
+			for _, sp := range p.specs {
+				if sp.Name == c.Name && sp.Fail[c.Args] == 0 && t.PlanBool(6) {
+					sp.Empty[c.Args] = true
+				}
 			}
 		}
 	}
@@ -286,7 +297,7 @@ func (p *reactPlan) expect(input []*schema.Message) *reactExpect {
 					ex.err = "tool-failure"
 				}
 			}
-			results = append(results, schema.ToolMessage(expectedContent(p.specs, c.Name, c.Args), c.ID))
+			results = append(results, schema.ToolMessage(expectedContent(p.specs, c.Name, c.Args, p.suffix), c.ID))
 			if _, ok := p.direct[c.Name]; ok && directID == "" {
 				directID = c.ID
 			}
@@ -533,7 +544,7 @@ func keys(m map[string]struct{}) []string {
 func init() {
 	core.Register(&core.Profile{
 		RaceQuick: 200, RaceThorough: 3000, ID: "C18", Engine: "agentsim", Quick: 3000, Thorough: 80000, ThoroughSeeds: 3, Run: runC18,
-		Rule: "each run draws a model script (0-3 tool-calling turns with 1-3 calls each, then a final answer, or an endless script), a chunking of every model message (tool calls first for the default checker, or text first with a whole-stream checker; leading empty chunks; pipe or array), 1-3 tools with yields, a return-directly set, a step limit, optionally a failing tool; Generate and Stream are both called; oracle: k-th model call sees original + every earlier assistant message + its tool results in call order, the answer is the first message without tool calls or the return-directly tool's message, step-limit error otherwise, Generate = concat(Stream)",
+		Rule: "each run draws a model script (0-3 tool-calling turns with 1-3 calls each, then a final answer, or an endless script), a chunking of every model message (tool calls first for the default checker, or text first with a whole-stream checker; leading empty chunks; pipe or array), 1-3 tools with yields, a return-directly set, a step limit, optionally a failing tool; Generate and Stream are both called; oracle: k-th model call sees original + every earlier assistant message + its tool results in call order, the answer is the first message without tool calls or the return-directly tool's message, step-limit error otherwise, Generate = concat(Stream); since the seeded waves: JSON arguments, tools built with utils.InferTool on a pointer request type, a MessageModifier written with the in-place filter idiom, up to two return-directly tools, tool calls answered with the empty string",
 		Real: agentReal, Stub: agentStub,
 		Faults: []string{"model chunking", "tool completion order", "step limit", "tool failure"},
 	})
@@ -554,7 +565,8 @@ func runC09React(t *kernel.Tape, opt core.Opts) *core.Outcome {
 	for i := range kinds {
 		kinds[i] = t.Plan(2)
 	}
-	o.Sample = fmt.Sprintf("react-concurrent callers=%d kinds=%v tools=%s script=%v loop=%v maxStep=%d direct=%v strict=%v modifier=%v", nc, kinds, specsStr(p.specs), p.script, p.loop, p.maxStep, keys(p.direct), p.strict, p.modifier)
+	shareInput := t.PlanBool(50)
+	o.Sample = fmt.Sprintf("react-concurrent callers=%d kinds=%v tools=%s script=%v loop=%v maxStep=%d direct=%v strict=%v modifier=%v", nc, kinds, specsStr(p.specs), p.script, p.loop, p.maxStep, keys(p.direct), p.strict, p.modifier) + fmt.Sprintf(" sharedInput=%v", shareInput)
 	o.PlanHash = core.HashString(o.Sample)
 	s := kernel.New(t, 300)
 	defer s.Close()
@@ -581,6 +593,11 @@ func runC09React(t *kernel.Tape, opt core.Opts) *core.Outcome {
 	}
 	results := make([]*result, nc)
 	inputs := make([][]*schema.Message, nc)
+	// the tools tell the runs apart (their answers carry the caller's tag); in half of the runs
+	// all callers pass one and the same input slice, which has spare capacity
+	env.tagOutputs = true
+	sharedIn := make([]*schema.Message, 1, 8)
+	sharedIn[0] = schema.UserMessage("hello-0")
 	// every caller passes the same shared option (a slice with spare capacity, as an
 	// application-wide default would be) plus an option of its own
 	base := make([]compose.Option, 1, 4)
@@ -590,6 +607,9 @@ func runC09React(t *kernel.Tape, opt core.Opts) *core.Outcome {
 		i := i
 		results[i] = &result{}
 		inputs[i] = []*schema.Message{schema.UserMessage(fmt.Sprintf("hello-%d", i))}
+		if shareInput {
+			inputs[i] = sharedIn
+		}
 		tag := fmt.Sprintf("r%d", i)
 		s.Go("caller"+tag, func() {
 			r := results[i]
@@ -645,7 +665,8 @@ func runC09React(t *kernel.Tape, opt core.Opts) *core.Outcome {
 			o.Violate("C09/panic-escaped", fmt.Sprintf("%s: %v", tag, r.panic))
 			continue
 		}
-		ex := p.expect(inputs[i])
+		p.suffix = "@" + tag
+		ex := p.expect(inputs[i][:1])
 		switch ex.err {
 		case "max-steps":
 			if r.err == nil || !errors.Is(r.err, compose.ErrExceedMaxSteps) {
